@@ -36,7 +36,9 @@ NAMES = [
     "list", "str", "int", "t2", "f(x)", "a,b", "x y z", "é", "class", "0x", "1a", "-", "e5",
     "ID2", "msg", "attachment", "choices", "is_ok", "v_1", "日本", "+", "1-2", "type",
 ]
-STR_DEFAULTS = ["", "", "x", "hello world", "a=b", "=", "日本", "a|b", "a;b", "true", "5", "-", "FALSE", "a\\b", "{x}"]
+STR_DEFAULTS = ["", "", "x", "hello world", "a=b", "=", "日本", "a|b", "a;b", "true", "5", "-", "FALSE", "a\\b", "{x}", "a.b", "1.5", "v1.2.3", "e.g."]
+LONG_P = 0.12   # share of indexed lists with 10-12 entries
+FLOAT_LITERALS = ["1.5", "-0.25", "2.0", "0.5", "10.75"]
 INT_DEFAULTS = [0, 0, 1, 5, -3, 42, 1000000, -1, 7]
 ANN_ELEMS = ["str", "int", "float", "bool", "list", {"list": "str"}, {"list": "int"}]
 
@@ -63,7 +65,7 @@ def gen_td(rng: random.Random, depth: int):
         if k < 0.5:
             return "int", {"i": rng.choice(INT_DEFAULTS)}
         if k < 0.65:
-            return "float", {"f": rng.choice(INT_DEFAULTS)}
+            return "float", gen_basic_default(rng, "float")
         if k < 0.8:
             return "bool", {"b": rng.random() < 0.5}
         if k < 0.87:
@@ -72,8 +74,12 @@ def gen_td(rng: random.Random, depth: int):
     if r < 0.7:
         fs = gen_fields(rng, depth - 1, rng.randint(1, 3))
         return {"model": fs}, default_record(fs)
-    # indexed list: one element type, per-index defaults
-    n = rng.randint(1, 3)
+    # indexed list: one element type, per-index defaults; now and then 10-12 entries
+    # (two-digit indices: f.1 … f.10, f.11, f.12)
+    long = rng.random() < LONG_P
+    n = rng.randint(10, 12) if long else rng.randint(1, 3)
+    if long:
+        depth = min(depth, 2)   # keeps the number of headers of one schema in the hundreds
     k = rng.random()
     if k < 0.4 or depth <= 1:
         t = rng.choice(BASIC)
@@ -94,7 +100,9 @@ def gen_basic_default(rng, t):
     if t == "int":
         return {"i": rng.choice(INT_DEFAULTS)}
     if t == "float":
-        return {"f": rng.choice(INT_DEFAULTS)}
+        # {"fx": literal}: a float default with a fractional part (not representable in the Lean
+        # model's Val.float, which is integer-valued: such schemas go through oracle C only)
+        return {"fx": rng.choice(FLOAT_LITERALS)} if rng.random() < 0.3 else {"f": rng.choice(INT_DEFAULTS)}
     return {"b": rng.random() < 0.5}
 
 
@@ -142,6 +150,8 @@ def ty_str(T):
 def val_str(V, style, rng):
     if "s" in V:
         return V["s"]
+    if "fx" in V:
+        return V["fx"]
     if "i" in V or "f" in V:
         i = V.get("i", V.get("f"))
         if style and rng.random() < 0.2 and i >= 0:
@@ -180,8 +190,11 @@ def render_td(T, V, style, rng):
         return [("." + h, lt) for h, lt in render(T["model"], style, rng)]
     if isinstance(T, dict) and V["l"]:
         out = []
-        for i, d in enumerate(V["l"]):
-            for suffix, lt in render_td(T["list"], d, style, rng):
+        order = list(range(len(V["l"])))
+        if style and len(order) > 1 and rng.random() < 0.15:
+            rng.shuffle(order)      # index columns out of order: the inferred model must not change
+        for i in order:
+            for suffix, lt in render_td(T["list"], V["l"][i], style, rng):
                 out.append(("." + str(i + 1) + suffix, lt))
         return out
     return [(render_leaf(T, V, style, rng), T)]
@@ -220,7 +233,7 @@ def build_explicit(fields, cname="Row"):
         if T == "list":
             return []
         if T == "float":
-            return float(V["f"])
+            return float(V["fx"]) if "fx" in V else float(V["f"])
         return V[{"str": "s", "int": "i", "bool": "b"}[T]]
 
     kw = {}
@@ -386,25 +399,40 @@ def gen_rows(rng, hdrs, n):
 
 
 def schema_worker(job):
-    """job = (seed, n, maxdepth, nrows).  Family schemas: tie B + oracle C."""
-    seed, n, maxdepth, nrows = job
+    """job = (seed, n, maxdepth, nrows[, given]).  Family schemas: tie B + oracle C.
+    `given`: explicit list of schemas (failing-input search) instead of n generated ones;
+    those outside InFamily are skipped."""
+    seed, n, maxdepth, nrows = job[:4]
+    given = job[4] if len(job) > 4 else None
     rng = random.Random(seed)
     drv = core.Driver()
+    res = {"n": 0, "ties": [], "viol": [], "strata": {}, "keys": [], "samples": [], "infra": []}
     schemas = []
-    for i in range(n):
+    if given is not None:
+        # only family schemas have an explicit twin; the others (holes, integer names, …) are skipped
+        fam = drv.results([{"op": "infer.render", "schema": fs} for fs in given])
+        schemas = [(fs, False) for fs, r in zip(given, fam) if "__error__" not in r and r.get("inFamily")]
+        res["strata"]["search.skipped_not_in_family"] = len(given) - len(schemas)
+    for i in range(n if given is None else 0):
         depth = rng.randint(0, maxdepth)
         fs = gen_fields(rng, depth, rng.randint(1, 5))
         ordered = rng.random() < 0.7
         if ordered:
             fs = sort_simple_first(fs)
         schemas.append((fs, ordered))
-    res = {"n": 0, "ties": [], "viol": [], "strata": {}, "keys": [], "samples": [], "infra": []}
 
     def cnt(k, d=1):
         res["strata"][k] = res["strata"].get(k, 0) + d
 
     # model side: render + family membership + the model's own round trip
-    m_render = drv.results([{"op": "infer.render", "schema": fs} for fs, _ in schemas])
+    # (schemas with a fractional float default are not representable in the Lean model: headers only)
+    def lean_ok(fs):
+        return '"fx"' not in json.dumps(fs)
+
+    m_render = iter(drv.results([{"op": "infer.render", "schema": fs} for fs, _ in schemas if lean_ok(fs)]))
+    m_plain = iter(drv.results([{"op": "infer.infer", "headers": [h for h, _ in render(fs)]} for fs, _ in schemas if not lean_ok(fs)]))
+    m_render = [next(m_render) if lean_ok(fs) else {"headers": [h for h, _ in render(fs)], "inFamily": False, "roundtrip": False, "infer": next(m_plain), "no_lean_schema": True}
+                for fs, _ in schemas]
     styled = []
     for fs, _ in schemas:
         styled.append(render(fs, True, rng))
@@ -418,6 +446,11 @@ def schema_worker(job):
         cnt(f"schema.depth={dep}")
         cnt("schema.simple_first" if ordered else "schema.any_order")
         txt = json.dumps(fs, ensure_ascii=False)
+        dotted = '"fx"' in txt or any("." in v for v in _str_defaults(fs))
+        if dotted:
+            cnt("schema.has_dotted_default")
+        if _max_indexed(fs) >= 10:
+            cnt("schema.has_indexed_list_of_10+")
         if '{"list": {"model"' in txt:
             cnt("schema.has_list_of_records")
         if '"model"' in txt:
@@ -430,7 +463,7 @@ def schema_worker(job):
         # B0: the two renderers agree
         if mr["headers"] != headers:
             res["ties"].append({"what": "renderHeaders (Lean) differs from the harness renderer", "schema": fs, "lean": mr["headers"], "harness": headers})
-        if ordered and not mr["inFamily"]:
+        if ordered and not dotted and not mr["inFamily"]:
             res["infra"].append({"what": "generator produced a schema outside InFamily", "schema": fs})
         if mr["inFamily"]:
             cnt("schema.InFamily")
@@ -443,6 +476,9 @@ def schema_worker(job):
             want = {"ok": mr["infer"]["ok"]["ty"]}
         elif mr["infer"]["err"] != "unsupported":
             want = {"err": mr["infer"]["err"]}
+        if "__error__" in mr["infer"]:
+            res["infra"].append({"driver": mr["infer"], "headers": headers})
+            continue
         if want is None:
             cnt("tie.skipped_unsupported")
         elif want != real:
@@ -467,7 +503,10 @@ def schema_worker(job):
         # the structure the code builds IS the schema (up to the order of fields)
         got = real["ok"].get("model") if isinstance(real["ok"], dict) else None
         if canon_schema(got) != canon_schema(fs):
-            res["viol"].append({"what": "inferred fields/types/defaults differ from the schema the headers denote", "schema": fs, "headers": headers, "inferred": got})
+            # show it at the property's own observable as well: one conforming row under both models
+            row = {h: gen_cell(random.Random(0), lt, 0.0) for h, lt in hdrs}
+            res["viol"].append({"what": "inferred fields/types/defaults differ from the schema the headers denote", "schema": fs, "headers": headers, "inferred": got,
+                                "row": row, "row_inferred": parse_outcome(inferred, row), "row_explicit": parse_outcome(explicit, row)})
             continue
         for which, hh, mdl in (("canonical", hdrs, inferred), ("restyled", hs_st, inferred_st)):
             if mdl is None:
@@ -483,6 +522,29 @@ def schema_worker(job):
     res["viol"] = sorted(res["viol"], key=lambda v: len(json.dumps(v, default=str)))[:10]
     res["ties"] = sorted(res["ties"], key=lambda v: len(json.dumps(v, default=str)))[:10]
     return res
+
+
+def _str_defaults(fields):
+    def vs(V):
+        if isinstance(V, dict):
+            if "s" in V:
+                yield V["s"]
+            for x in V.get("l", []):
+                yield from vs(x)
+            for _k, x in V.get("r", []):
+                yield from vs(x)
+    for _n, T, V in fields:
+        yield from vs(V)
+
+
+def _max_indexed(fields):
+    def mt(T, V):
+        if isinstance(T, dict) and "model" in T:
+            return _max_indexed(T["model"])
+        if isinstance(T, dict) and V and V.get("l"):
+            return max([len(V["l"])] + [mt(T["list"], d) for d in V["l"]])
+        return 0
+    return max([mt(T, V) for _n, T, V in fields] or [0])
 
 
 def canon_schema(fields):
@@ -502,6 +564,9 @@ def canon_schema(fields):
             return {"r": sorted([[k, cv(x)] for k, x in V["r"]], key=lambda p: p[0])}
         if isinstance(V, dict) and "l" in V:
             return {"l": [cv(x) for x in V["l"]]}
+        if isinstance(V, dict) and "fx" in V:
+            x = float(V["fx"])
+            return {"f": int(x)} if x.is_integer() else {"fx": repr(x)}
         return V
 
     return sorted([[n, ct(T), cv(V)] for n, T, V in fields], key=lambda f: f[0])
@@ -708,7 +773,8 @@ def run(ck: core.Check):
     ck.lean = core.lean_step("C18", thorough=(ck.tier == "thorough"))
     ck.rule = (
         "schemas drawn from the family (records, indexed lists with per-index defaults, lists of records, lists of lists, "
-        "List[T]/list annotations, all basic types, defaults without '.'), nesting depth 0..3 (quick) / 0..4 (thorough), 70% in "
+        "List[T]/list annotations, all basic types, defaults incl. dotted ones (a.b, 1.5), 12% of the indexed lists with 10-12 entries (two-digit indices), "
+        "index columns out of order in the restyled spelling), nesting depth 0..3 (quick) / 0..4 (thorough), 70% in "
         "the order the code builds (simple fields first) and 30% in arbitrary order; each rendered canonically and in a restyled "
         "spelling; rows: conforming / with blanks / with columns omitted; a case is non-trivial always (≥1 field); distinct = "
         "distinct header lists"
@@ -759,15 +825,71 @@ def run(ck: core.Check):
     known_stream(ck)
 
     # self-check of the distribution
-    need = ["schema.has_list_of_records", "schema.has_record", f"schema.depth={maxdepth}", "rows.omitted", "rows.blanks", "schema.InFamily"]
+    need = ["schema.has_list_of_records", "schema.has_record", f"schema.depth={maxdepth}", "rows.omitted", "rows.blanks", "schema.InFamily",
+            "schema.has_indexed_list_of_10+", "schema.has_dotted_default"]
     missing = [s for s in need if not ck.strata.get(s)]
     if missing:
         raise core.Infra(f"generator self-check: strata never hit: {missing}")
 
     if (ck.tie_breaks or not ck.lean.ok) and not ck.violations and quick:
-        # obligation broken: failing-input search = a larger, differently seeded run of oracle C
+        # obligation broken: failing-input search, cheapest first (time-boxed by fixed sizes):
+        # (1) the disagreeing shapes: the schema the MODEL reads from each disagreeing header list
+        #     (= what the headers denote), where it is a family schema, through oracle C;
+        # (2) a systematic sweep of indexed lists of 1..12 entries × element kinds × positions;
+        # (3) a differently seeded random run of oracle C at thorough depth.
         ck.search_ran = True
-        explore(12000, 2000, 600, 4, 6, 0x5EA5C)
+        shapes = shapes_from_ties(ck.tie_breaks)
+        ck.count("search.shapes_from_disagreements", len(shapes))
+        k = par.NPROC
+        fold(ck, par.pmap(schema_worker, [(7 + i, 0, 4, 6, sh) for i, sh in enumerate(core.shard(shapes, k)) if sh]), "search_disagreeing_shapes")
+        if not ck.violations:
+            sw = sweep_schemas()
+            fold(ck, par.pmap(schema_worker, [(70 + i, 0, 4, 6, sh) for i, sh in enumerate(core.shard(sw, k)) if sh]), "search_sweep")
+        if not ck.violations:
+            base = ck.rng.randrange(1 << 30) ^ 0x5EA5C
+            fold(ck, par.pmap(schema_worker, [(base + i, 3000 // (2 * k) + 1, 4, 4) for i in range(2 * k)]), "search_random")
+
+
+def shapes_from_ties(ties):
+    """family-shaped schemas read off the disagreeing header lists (model side and real side)."""
+    out, seen = [], set()
+    for t in ties:
+        if not t:
+            continue
+        d = t.get("detail", {})
+        for side in ("model", "real"):
+            ok = (d.get(side) or {}).get("ok") if isinstance(d.get(side), dict) else None
+            ty = ok.get("ty") if isinstance(ok, dict) and "ty" in ok else ok
+            if isinstance(ty, dict) and isinstance(ty.get("model"), list):
+                try:
+                    fs = sort_simple_first(ty["model"])
+                except Exception:  # noqa: BLE001  (holes / shapes outside the schema language)
+                    continue
+                key = json.dumps(fs, ensure_ascii=False)
+                if key not in seen:
+                    seen.add(key)
+                    out.append(fs)
+    return out
+
+
+def sweep_schemas():
+    """indexed lists of 1..12 entries × element kinds × positions (top level, in a record, in a list of records)."""
+    out = []
+    sub = [["a", "str", {"s": ""}], ["n", "int", {"i": 5}]]
+    elems = [
+        ("str", lambda i: {"s": "d%d" % i}),
+        ("int", lambda i: {"i": i}),
+        ("bool", lambda i: {"b": i % 2 == 0}),
+        ({"model": sub}, lambda i: default_record(sub)),
+        ({"list": "str"}, lambda i: {"l": [{"s": "x"}] * (1 + i % 2)}),
+    ]
+    for n in range(1, 13):
+        for t, dv in elems:
+            f = ["f", {"list": t}, {"l": [dv(i) for i in range(n)]}]
+            out.append([f])
+            out.append([["k", "str", {"s": ""}], ["r", {"model": [f]}, default_record([f])]])
+            out.append([["o", {"list": {"model": [f]}}, {"l": [default_record([f]), default_record([f])]}]])
+    return out
 
 
 def replay(path):
